@@ -181,7 +181,7 @@ func cmdCheck(args []string) int {
 		// sensitivity child: print verdict only
 		return final.finishNoEvidence(*verif)
 	}
-	rc = final.finish(runMeta{verifDir: *verif, seed: seed, start: start, explanation: pd.Explanation,
+	rc = final.finish(runMeta{verifDir: *verif, seed: seed, start: start, explanation: pd.Explanation + extraExplanation[pd.ID],
 		assumptions: pd.Assumptions, trusted: append(append([]string{}, commonTrusted...), pd.Trusted...), ruleText: pd.RuleText, extra: extra})
 	return rc
 }
